@@ -64,9 +64,47 @@ class CaptureSocket:
         self.buf = bytearray()
         self.msg_ends = []
 
-    def sendall(self, b):
+    def sendall(self, b, *flags):
         self.buf += b
         self.msg_ends.append(len(self.buf))
+
+    # whichever call the sender uses: this kernel takes everything at once
+    def send(self, b, *flags):
+        self.buf += bytes(b)
+        self.msg_ends.append(len(self.buf))
+        return len(b)
+
+    def sendmsg(self, buffers, *a):
+        data = b''.join(bytes(x) for x in buffers)
+        self.buf += data
+        self.msg_ends.append(len(self.buf))
+        return len(data)
+
+
+class ShortWriteSocket(CaptureSocket):
+    """The kernel takes at most caps[i] bytes in the i-th call of send()/sendmsg() (and everything in later calls) and says how many it
+    took; sendall() is the one call which loops by itself."""
+
+    def __init__(self, caps):
+        super().__init__()
+        self.caps = list(caps)
+        self.calls = 0
+
+    def _take(self, n):
+        cap = self.caps[self.calls] if self.calls < len(self.caps) else n
+        self.calls += 1
+        return min(n, cap)
+
+    def send(self, b, *flags):
+        k = self._take(len(b))
+        self.buf += bytes(b[:k])
+        return k
+
+    def sendmsg(self, buffers, *a):
+        data = b''.join(bytes(x) for x in buffers)
+        k = self._take(len(data))
+        self.buf += data[:k]
+        return k
 
 
 def compositions(n):
